@@ -62,8 +62,11 @@ func (exec *Executor) execUnaryNode(
 		}
 
 		st, err := exec.executeNestedBoolItem(ctx, node.Operand(), value)
+		if err != nil {
+			return statusFailed, err
+		}
 		if st != predTrue {
-			return statusNotFound, err
+			return statusNotFound, nil
 		}
 		return exec.executeNextItem(ctx, node, nil, value, found)
 	case ast.UnaryPlus:
